@@ -13,6 +13,7 @@
 
 #include "celma/prog_args/eval_argument_string.hpp"
 #include "celma/prog_args/groups.hpp"
+#include "celma/prog_args/value_handler.hpp"
 
 namespace recipes {
 
@@ -31,6 +32,9 @@ struct EvalCfg
    /// the words behind argv[ 0] come as one string through evalArgumentString()
    bool                        use_arg_string = false;
    std::string                 arg_string;
+   /// the ValueHandler front end (the handler owns the destination values)
+   /// with a fixed set of arguments instead of a recipe
+   bool                        value_handler = false;
 };
 
 struct EvalOut
@@ -90,6 +94,56 @@ private:
    char**  mpArgv;
 };
 
+/// the arguments of the ValueHandler mode: keys with a short form only, a
+/// long form only, both, a container and the positional argument
+inline void valueHandlerArguments( celma::prog_args::ValueHandler& vh)
+{
+   vh.addValueArgument< std::string>( "a", "string, short key only");
+   vh.addValueArgument< int>( "bcd", "int, long key only");
+   vh.addValueArgument< int>( "n,number", "int, both keys");
+   vh.addValueArgument< std::vector< int>>( "v,values", "vector of int");
+   vh.addValueArgument< std::string>( "free value");
+}
+
+inline void valueHandlerInfo( Built& out)
+{
+   out.args.clear();
+   out.args.push_back( ArgInfo{ "a", "", kStr});
+   out.args.push_back( ArgInfo{ "", "bcd", kInt});
+   out.args.push_back( ArgInfo{ "n", "number", kInt});
+   ArgInfo  v{ "v", "values", kIntList};
+   v.once = false;
+   out.args.push_back( v);
+   out.args.push_back( ArgInfo{ "", "", kPositional});
+}
+
+inline std::string valueHandlerSnapshot( celma::prog_args::ValueHandler& vh)
+{
+   std::ostringstream  os;
+   auto get = [ &]( auto dest, const char* key, const char* name)
+   {
+      try
+      {
+         if (key[ 0] == '-' && key[ 1] == '\0') vh.getValue( dest); else vh.getValue( dest, key);
+         os << name << "=";
+         if constexpr (std::is_same_v< decltype( dest), std::vector< int>>)
+            for (int x : dest) os << x << ",";
+         else
+            os << dest;
+         os << " ";
+      } catch (const std::exception& e)
+      {
+         os << name << "!" << e.what() << " ";
+      }
+   };
+   get( std::string(), "a", "a");
+   get( int( 0), "bcd", "bcd");
+   get( int( 0), "n", "n");
+   get( std::vector< int>(), "v", "v");
+   get( std::string(), "-", "pos");
+   return os.str();
+}
+
 inline EvalOut evaluate( const EvalCfg& cfg)
 {
    EvalOut             out;
@@ -130,6 +184,37 @@ inline EvalOut evaluate( const EvalCfg& cfg)
       out.out = os.str();
       out.err = es.str();
       out.setup_refusals = b.setup_errors.size();
+      return out;
+   }
+   if (cfg.value_handler)
+   {
+      namespace pa = celma::prog_args;
+      std::string  snap;
+      try
+      {
+         pa::ValueHandler  vh( os, es, cfg.flags);
+         if (cfg.arg_file_arg) vh.addArgumentFile( "arg-file");
+         if (cfg.named_env) vh.checkEnvVarArgs( cfg.env_name);
+         valueHandlerArguments( vh);
+         setup_done = true;
+         for (int r = 0; r < cfg.repeat; ++r)
+            vh.evalArguments( args.argc(), args.argv());
+         snap = valueHandlerSnapshot( vh);
+      } catch (const std::exception& e)
+      {
+         out.threw = true;
+         out.ex_type = demangle( typeid( e).name());
+         out.what = e.what();
+      } catch (...)
+      {
+         out.threw = true;
+         out.std_exception = false;
+         out.ex_type = "not derived from std::exception";
+      }
+      out.in_setup = out.threw && !setup_done;
+      out.snapshot = snap;
+      out.out = os.str();
+      out.err = es.str();
       return out;
    }
    try
